@@ -3,4 +3,5 @@ pub mod isolate;
 pub mod lang;
 pub mod par;
 pub mod report;
+pub mod syntax;
 pub mod vmkit;
